@@ -1,6 +1,8 @@
 /-
-Refinement: `_read_global_config` as regenerated from `odetoolbox/__init__.py` on every run
-(`OdeVerif/Generated/PyConfig.lean`) is the model function `Config.readOptions` used by `Proofs/C07.lean`.
+Refinement: the option handling at the start of `_analysis` (`Config.reset()`, early return without `dynamics`,
+`_read_global_config`, the `simplify_expression` argument) and `_read_global_config` itself, as regenerated from
+`odetoolbox/__init__.py` on every run (`OdeVerif/Generated/PyConfig.lean`), are the model functions
+`Config.call` (with the policy "reset first") and `Config.readOptions` that `Proofs/C07.lean` is about.
 -/
 import OdeVerif.Generated.PyConfig
 import OdeVerif.Model.Config
@@ -8,8 +10,12 @@ import OdeVerif.Model.Config
 namespace OdeVerif.Refine
 open OdeVerif
 
+/-- how the model reports the outcome of reading the options -/
+def readResult (r : Config.Store × Bool) : Except Config.Store Config.Store :=
+  if r.2 then .ok r.1 else .error r.1
+
 theorem readGlobalConfig_for_refines : ∀ (opts : List (String × String)) (store : Config.Store),
-    Generated.readGlobalConfig_for1 opts store = Config.readOptions store opts := by
+    Generated.readGlobalConfig_for1 opts store = readResult (Config.readOptions store opts) := by
   intro opts
   induction opts with
   | nil => intro store; rfl
@@ -19,18 +25,43 @@ theorem readGlobalConfig_for_refines : ∀ (opts : List (String × String)) (sto
     unfold Generated.readGlobalConfig_for1 Config.readOptions
     by_cases h : store.hasKey k = true
     · simp only [h, if_true]; exact ih _
-    · simp [h]
+    · simp [h, readResult]
 
 /-- options are applied in order; an unknown key stops the loop with the earlier keys already written -/
 theorem readGlobalConfig_refines (store : Config.Store) (options : Option (List (String × String))) :
-    Generated.readGlobalConfig store options = Config.readOptions store (options.getD []) := by
+    Generated.readGlobalConfig store options = readResult (Config.readOptions store (options.getD [])) := by
   unfold Generated.readGlobalConfig
   cases options with
-  | none => simp [Config.readOptions]
+  | none => simp [Config.readOptions, readResult]
   | some o =>
     simp only [Option.isSome_some, if_true, Option.getD_some]
     rw [readGlobalConfig_for_refines]
     rcases Config.readOptions store o with ⟨s, b⟩
     cases b <;> rfl
+
+/-- **every call starts from the default options**: the regenerated prologue of `_analysis` is the model's `call`
+under the policy `resetsFirst := true` (the hypothesis of `C07.probe_history_independent`), whatever store the
+previous calls left behind -/
+theorem analysisPrologue_refines {I F R : Type} (analyse : Config.Store → I → F → R) (s : Config.Store) (c : Config.Call I F) :
+    Config.call ⟨true⟩ analyse s c =
+      match Generated.analysisPrologue s c.hasDynamics c.options c.simplify with
+      | .error s' => (s', .badOption)
+      | .ok (s', .empty) => (s', .empty)
+      | .ok (s', .proceed) => (s', .result (analyse s' c.input c.flags)) := by
+  unfold Config.call Generated.analysisPrologue
+  cases hd : c.hasDynamics with
+  | false => simp
+  | true =>
+    simp only [Bool.not_true, Bool.false_eq_true, if_false, if_true, readGlobalConfig_refines, readResult]
+    rcases Config.readOptions Config.defaults (c.options.getD []) with ⟨s1, b⟩
+    cases b with
+    | false => simp
+    | true =>
+      cases c.simplify <;> simp
+
+/-- the store the prologue leaves behind does not depend on the store it found -/
+theorem analysisPrologue_ignores_store (s s' : Config.Store) (hasDynamics : Bool) (options : Option (List (String × String)))
+    (simplify : Option String) :
+    Generated.analysisPrologue s hasDynamics options simplify = Generated.analysisPrologue s' hasDynamics options simplify := rfl
 
 end OdeVerif.Refine
